@@ -441,10 +441,10 @@ func (x *exec) judge(v *view, q *Query, sq *search.SearchQuery, a *answer, opIdx
 					cause = "node-type-listed-twice"
 				}
 			}
-			if x.report("duplicate-result", cause, where, fmt.Sprintf("%s returned twice; %s", x.describeRefs(v, []string{r}), ctx()), opIdx) {
-				return true
-			}
-			continue
+			// a result with duplicates is not compared any further (under a
+			// limit the duplicates have displaced other results)
+			x.report("duplicate-result", cause, where, fmt.Sprintf("%s returned twice; %s", x.describeRefs(v, []string{r}), ctx()), opIdx)
+			return true
 		}
 		seen[r] = true
 		uniq = append(uniq, r)
@@ -479,6 +479,17 @@ func (x *exec) judge(v *view, q *Query, sq *search.SearchQuery, a *answer, opIdx
 		readings = append(readings, reading{"logical-siblings", ex.alt})
 		if descTime && untimed(ex.alt) {
 			readings = append(readings, reading{"logical-siblings+untimed-permanode", dropUntimed(ex.alt)})
+		}
+	}
+	if !corpus && q.Limit > 0 && q.C.usesDirChildren() {
+		// without a corpus a directory's children are read with
+		// GetDirMembers(..., limit = the QUERY's Limit)
+		v.childLimit = q.Limit
+		cut := v.evaluate(q.C)
+		v.childLimit = 0
+		readings = append(readings, reading{"dir-children-cut-at-limit", cut.set})
+		if q.C.hasSiblings() {
+			readings = append(readings, reading{"logical-siblings+dir-children-cut-at-limit", cut.alt})
 		}
 	}
 	if a.source == "corpus_permanode_types" {
